@@ -147,29 +147,146 @@ CONCAT_VECS = [(_OPEN, "concat_vecs(&["), (_CLOSE, "])")]
 CONCAT_SLICES = [(_OPEN, "concat_slices(&["), (_CLOSE, "])")]
 UPPER = [(r"\(user\.to_uppercase\(\) \+ &domain\)", "upper_concat(user, domain)")]
 
+A(Raw(r"""
+/// GSS_UnwrapEx acceptance (3.4.3 / 3.4.4.2 mirrored): token = signature(16) ++ ciphertext; accepted iff the version word is 1 and the
+/// checksum, decrypted by the handle continuing after the message, is HMAC_MD5(verify_key, SeqNum ++ plaintext)[0..8] for the SeqNum in the token
+pub open spec fn unseal_spec_fn(st: rc4::RcState, verify_key: Seq<u8>, token: Seq<u8>) -> Option<Seq<u8>> {
+    if token.len() < 16 || token.take(4) != le32(1) { None } else {
+        let payload = token.skip(16);
+        let p = rc4::rc4_xor(st, payload);
+        let sum = rc4::rc4_xor(rc4::advance(st, payload.len()), token.subrange(4, 12));
+        if sum == hmac_md5_spec(verify_key, token.subrange(12, 16) + p).take(8) { Some(p) } else { None }
+    }
+}
+""", mod="ntlm", name="unseal_spec"))
+
 STUBS = {
     "md4": dict(why="md4 crate", ensures=["r@ == md4_spec(data@)"]),
     "md5": dict(why="md-5 crate", ensures=["r@ == md5_spec(data@)"]),
     "hmac_md5": dict(why="hmac + md-5 crates", ensures=["r@ == hmac_md5_spec(key@, data@)"]),
     "unicode": dict(why="std str::encode_utf16 iterator", ensures=["r@ == utf16le(data@)"]),
 }
+
+A(Raw(r"""
+// ---------------- layouts of the NTLM messages (MS-NLMP 2.2.1, 2.2.2.1, 2.2.2.9.1, 2.2.2.10) as ghost views
+pub open spec fn ntlmssp() -> Seq<u8> { seq![0x4eu8, 0x54u8, 0x4cu8, 0x4du8, 0x53u8, 0x53u8, 0x50u8, 0u8] }
+pub open spec fn version_view() -> MV {
+    MV::Comp(seq![("ProductMajorVersion"@, MV::U8(6)), ("ProductMinorVersion"@, MV::U8(0)), ("ProductBuild"@, MV::U16(6002, true)),
+                  ("Reserved"@, MV::Trame(seq![MV::U16(0, true), MV::U8(0)])), ("NTLMRevisionCurrent"@, MV::U8(0x0F))])
+}
+/// VERSION structure (2.2.2.10): major 6, minor 0, build 6002, 3 reserved bytes, NTLMSSP_REVISION_W2K3
+pub open spec fn version_bytes() -> Seq<u8> { seq![6u8, 0u8] + le16(6002) + seq![0u8, 0u8, 0u8, 0x0Fu8] }
+/// NTLMSSP_NEGOTIATE_VERSION (0x02000000) decides whether the Version field is on the wire
+pub open spec fn flags_ov(v: u32) -> OV { if v & 0x02000000 == 0 { OV::Skip("Version"@) } else { OV::None } }
+pub open spec fn challenge_view() -> MV {
+    MV::Comp(seq![("Signature"@, MV::Check(Box::new(MV::Bytes(ntlmssp())))), ("MessageType"@, MV::Check(Box::new(MV::U32(2, true)))),
+                  ("TargetNameLen"@, MV::U16(0, true)), ("TargetNameLenMax"@, MV::U16(0, true)), ("TargetNameBufferOffset"@, MV::U32(0, true)),
+                  ("NegotiateFlags"@, MV::Dyn(Box::new(MV::U32(0, true)), OV::Skip("Version"@))),
+                  ("ServerChallenge"@, MV::Bytes(zeros(8))), ("Reserved"@, MV::Bytes(zeros(8))),
+                  ("TargetInfoLen"@, MV::U16(0, true)), ("TargetInfoMaxLen"@, MV::U16(0, true)), ("TargetInfoBufferOffset"@, MV::U32(0, true)),
+                  ("Version"@, version_view()), ("Payload"@, MV::Bytes(Seq::empty()))])
+}
+pub open spec fn av_pair_view() -> MV {
+    MV::Comp(seq![("AvId"@, MV::U16(0, true)), ("AvLen"@, MV::Dyn(Box::new(MV::U16(0, true)), OV::Size("Value"@, 0))), ("Value"@, MV::Bytes(Seq::empty()))])
+}
+/// NTLMSSP_MESSAGE_SIGNATURE with extended session security (2.2.2.9.2): Version 1, 8 byte checksum, sequence number
+pub open spec fn signature_view(sum: Seq<u8>, seq_num: u32) -> MV {
+    MV::Comp(seq![("Version"@, MV::Check(Box::new(MV::U32(1, true)))), ("Checksum"@, MV::Bytes(sum)), ("SeqNum"@, MV::U32(seq_num, true))])
+}
+""", mod="ntlm", name="ntlm_layouts"))
+
+MO = "-> (r: MessageOption)"
+FLAGS_CLOSURE = dict(params="node: &U32", ret=MO, spec="ensures r.ov() == flags_ov(node.val())")
+VERSION_FLAG_HINT = (r"if node\.inner\(\) & \(Negotiate::NtlmsspNegociateVersion as u32\) == 0", 1,
+                     "proof { assert(Negotiate::NtlmsspNegociateVersion as u32 == 0x02000000u32); }", "before")
+
+FNS = {}
+def F(name, hdr=None, **kw):
+    FNS[(name, hdr)] = kw
+
+IMPL_NTLM = "impl Ntlm"
 IMPL_AUTH = "impl AuthenticationProtocol for Ntlm"
+IMPL_SEC = "impl NTLMv2SecurityInterface"
 IMPL_GSS = "impl GenericSecurityService for NTLMv2SecurityInterface"
-FNS = {
-    "authenticate_message": dict(body_sub=CONCAT_VECS),
-    "ntowfv2": dict(body_sub=UPPER),
-    "ntowfv2_hash": dict(body_sub=UPPER),
-    "compute_response_v2": dict(body_sub=CONCAT_VECS),
-    "mic": dict(body_sub=CONCAT_VECS),
-    "sign_key": dict(body_sub=CONCAT_SLICES),
-    "seal_key": dict(body_sub=CONCAT_SLICES),
-    "mac": dict(body_sub=CONCAT_SLICES),
-    "gss_unwrapex": dict(body_sub=CONCAT_VECS),
-    "read_target_info": dict(nloops=1, loops={1: "decreases stream.rest().len()"}),
+
+# ---------------- builders
+F("version", ret="c", props=["C04"], fuel=8,
+  ensures=shape_clauses(NTLM, "version", res="c") + [("C04", "view", "c.mv() == version_view()"), ("C04", "bytes", "ser(c.mv()) =~= version_bytes()"),
+                                                    (None, "static", "is_static(c.mv()) && ser(c.mv()).len() == 8")],
+  post="""proof {
+        let f = c.fields();
+        assert(f[3].1 is Trame);
+        let t = f[3].1->Trame_0;
+        assert(t =~= seq![MV::U16(0, true), MV::U8(0)]);
+        assert(f =~= version_view()->Comp_0);
+        reveal_with_fuel(is_static, 4);
+        assert(le16(0) =~= seq![0u8, 0u8]) by { assert((0u16 & 0xff) as u8 == 0u8 && ((0u16 >> 8) & 0xff) as u8 == 0u8) by(bit_vector); }
+        assert(ser(f[3].1) =~= seq![0u8, 0u8, 0u8]);
+        assert(ser(f[0].1) =~= seq![6u8]);
+        assert(ser(f[1].1) =~= seq![0u8]);
+        assert(ser(f[2].1) =~= le16(6002));
+        assert(ser(f[4].1) =~= seq![0x0Fu8]);
+        assert(is_static(f[3].1));
+  }""")
+F("negotiate_message", ret="c", props=["C04", "C03"], closures={1: FLAGS_CLOSURE},
+  ensures=shape_clauses(NTLM, "negotiate_message", res="c"))
+F("challenge_message", ret="c", props=["C07"], closures={1: FLAGS_CLOSURE},
+  ensures=shape_clauses(NTLM, "challenge_message", res="c") + [("C07", "view", "c.mv() == challenge_view()")],
+  post="proof { assert(0u32 & 0x02000000 == 0) by(bit_vector); let f = c.fields(); assert(f[6].1->Bytes_0 =~= zeros(8)); assert(f[7].1->Bytes_0 =~= zeros(8)); assert(f =~= challenge_view()->Comp_0); }")
+F("authenticate_message", props=["C04", "C15"], body_sub=CONCAT_VECS, closures={1: FLAGS_CLOSURE})
+F("get_payload_field", props=["C07"])
+F("av_pair", ret="c", props=["C07"],
+  closures={1: dict(params="node: &U16", ret=MO, spec='ensures r.ov() == OV::Size("Value"@, node.val() as usize)')},
+  ensures=shape_clauses(NTLM, "av_pair", res="c") + [("C07", "view", "c.mv() == av_pair_view()")],
+  post="proof { assert(c.fields() =~= av_pair_view()->Comp_0); }")
+SUM8 = "(if check_sum is Some { check_sum->Some_0@.take(8) } else { zeros(8) })"
+SEQ = "(if seq_num is Some { seq_num->Some_0 } else { 0u32 })"
+F("message_signature_ex", ret="c", props=["C16", "C04"], fuel=5,
+  requires=["check_sum is Some ==> check_sum->Some_0@.len() >= 8"],
+  ensures=shape_clauses(NTLM, "message_signature_ex", res="c") + [
+      ("C16,C04", "view", "c.mv() == signature_view(%s, %s)" % (SUM8, SEQ)),
+      ("C16,C04", "bytes", "ser(c.mv()) =~= le32(1) + %s + le32(%s)" % (SUM8, SEQ))],
+  post="proof { let f = c.fields(); assert(f[1].1->Bytes_0 =~= %s); assert(f =~= signature_view(%s, %s)->Comp_0); }" % (SUM8, SUM8, SEQ))
+F("read_target_info", props=["C07"], nloops=1, loops={1: "decreases stream.rest().len()"})
+F("z", props=["C15"], ensures=["r@ =~= zeros(m as nat)"])
+F("ntowfv2", props=["C15", "C17"], body_sub=UPPER)
+F("ntowfv2_hash", props=["C15"], body_sub=UPPER)
+F("lmowfv2", props=["C15"])
+F("compute_response_v2", props=["C15"], body_sub=CONCAT_VECS)
+F("kx_key_v2", props=["C15"])
+F("rc4k", props=["C15"], requires=["1 <= key@.len() <= 256"])
+F("mic", props=["C15"], body_sub=CONCAT_VECS)
+F("sign_key", props=["C16"], body_sub=CONCAT_SLICES)
+F("seal_key", props=["C16"], body_sub=CONCAT_SLICES)
+F("mac", props=["C16"], body_sub=CONCAT_SLICES)
+F("new", IMPL_NTLM, props=["C15", "C17"])
+F("from_hash", IMPL_NTLM, props=["C15"])
+F("create_negotiate_message", IMPL_AUTH, props=["C03", "C04"])
+F("read_challenge_message", IMPL_AUTH, props=["C07", "C15"], keys=True)
+F("build_security_interface", IMPL_AUTH, props=["C16"])
+F("get_domain_name", IMPL_AUTH, props=["C17"])
+F("get_user_name", IMPL_AUTH, props=["C17"])
+F("get_password", IMPL_AUTH, props=["C17"])
+F("new", IMPL_SEC, props=["C16"])
+F("gss_wrapex", IMPL_GSS, props=["C16"])
+F("gss_unwrapex", IMPL_GSS, props=["C16", "C01", "C07"], body_sub=CONCAT_VECS, keys=True)
+
+IMPL_RAW = {
+    IMPL_AUTH: r"""
+    /// what get_domain_name / get_user_name / get_password return: UTF-16LE when the server negotiated unicode, the UTF-8 bytes otherwise
+    open spec fn domain_spec(&self) -> Seq<u8> { if self.is_unicode { utf16le(self.domain@) } else { utf8_bytes(self.domain@) } }
+    open spec fn user_spec(&self) -> Seq<u8> { if self.is_unicode { utf16le(self.user@) } else { utf8_bytes(self.user@) } }
+    open spec fn password_spec(&self) -> Seq<u8> { if self.is_unicode { utf16le(self.password@) } else { utf8_bytes(self.password@) } }
+""",
+    IMPL_GSS: r"""
+    open spec fn seal_spec(&self, data: Seq<u8>) -> Seq<u8> { seal_spec_fn(self.encrypt.view(), self.signing_key@, self.seq_num, data) }
+    open spec fn unseal_spec(&self, data: Seq<u8>) -> Option<Seq<u8>> { unseal_spec_fn(self.decrypt.view(), self.verify_key@, data) }
+""",
 }
 
 from vx.layouts import list_fns
 import re as _re
+_seen = set()
 for name, hdr in list_fns(NTLM):
     impl = None
     if hdr:
@@ -177,8 +294,10 @@ for name, hdr in list_fns(NTLM):
     if name in STUBS and impl is None:
         A(Stub(NTLM, name, mod="ntlm", **STUBS[name]))
         continue
-    kw = dict(FNS.get((name, hdr), FNS.get(name, {})))
-    kw.setdefault("props", ["C07"])
+    if hdr in IMPL_RAW and hdr not in _seen:
+        _seen.add(hdr)
+        A(Raw(IMPL_RAW[hdr], mod="ntlm", name="specs of " + hdr, file=NTLM, impl=impl))
+    kw = dict(FNS[(name, hdr)])
     A(Fn(NTLM, name, impl=impl, mod="ntlm", **kw))
 
 UNIT = Unit("ntlm", ["base.rs", "model.rs", "leaf.rs", "lemmas.rs", "unicode.rs", "collections.rs"], items,
